@@ -19,11 +19,12 @@ for n in names:
   except Exception: meta = {}
   meta.setdefault("property", pid)
   passed = re.search(r"(\d+) passed", tests.group(1)) if tests else None
+  b46 = re.search(r"base46: (\d+)/(\d+) pass", out)
   meta["confirmed"] = dict(
     against_repo_head = subprocess.run(["git", "-C", "/repo", "rev-parse", "--short", "HEAD"], capture_output=True, text=True).stdout.strip(),
     ran = "tools/mut.sh seeded/%s/patch.diff %s seeded/%s/demo.py  (scratch worktree of /repo HEAD + patch: baseline pytest, demo, ./check %s --tier quick)" % (n, pid, n, pid),
     baseline_tests = tests.group(1) if tests else "?",
-    baseline_46_still_pass = bool(passed and int(passed.group(1)) >= 46),
+    baseline_46_still_pass = bool(b46 and b46.group(1) == b46.group(2)),
     demo_exit_with_patch = int(demo_m.group(1)) if demo_m else None,
     check_exit_with_patch = int(chk.group(1)) if chk else None,
     detected = bool(chk and chk.group(1) == "1"),
